@@ -394,7 +394,7 @@ theorem reopen_never_fails_identity : OpenSafe Gen.openIdentityDatabase 1 :=
 /-- the same for AttestationsDB, **including files of schema version 1** that `check_database` upgrades
     (`ALTER TABLE … ADD id_format`): a kill behind any statement of the upgrade or schema script leaves a file that
     opens again and ends upgraded.  Holds because the generated upgrade script is one transaction that also bumps
-    the version row (commit f3c7ff7); see the example below for the script it replaced. -/
+    the version row (commit 6e6fbfe); see the example below for the script it replaced. -/
 theorem reopen_never_fails_wallet : OpenSafe Gen.openAttestationsDB 2 :=
   openSafe_of _ _ (by decide)
 
@@ -404,7 +404,7 @@ example :
     let cfg := { Gen.openIdentityDatabase with handlers := [.operationalError] }
     openOk cfg (openKilled cfg 4 {}) = false := by decide
 
-/-- what the transaction in the upgrade script is for (before commit f3c7ff7): a version-1 file killed right after
+/-- what the transaction in the upgrade script is for (before commit 6e6fbfe): a version-1 file killed right after
     the ALTER TABLE says version 1 and has the column; the next open raises "duplicate column name" -/
 example :
     let cfg := { Gen.openAttestationsDB with upgrades := [(1, [.alterAddCol, .fillCol])] }
